@@ -132,6 +132,16 @@ namespace embedded_pairing::bls12_381 {
                     return false;
                 }
             }
+            /*
+             * Accept only the encoding we would produce ourselves: this
+             * rejects coordinates that are not reduced modulo q and stray
+             * flag bits in the coordinates after the first.
+             */
+            Encoding<Affine, compressed> canonical;
+            canonical.encode(g);
+            if (memcmp(canonical.data, this->data, sizeof(this->data)) != 0) {
+                return false;
+            }
             return g.is_in_correct_subgroup_assuming_on_curve();
         }
 
